@@ -123,7 +123,12 @@ def anc_source(repo=REPO):
     raise ValueError(f'get_ancilla_qubit_operation: guard on {which}')
 
 
-ANC_SOURCE = anc_source()
+SOURCE_TIE_ERRORS = []         # shapes of the source this module reads itself and no longer recognises (reported as a broken tie)
+try:
+    ANC_SOURCE = anc_source()
+except Exception as _e:        # fail closed: the check reports it (harness/common.py), it must not crash at import
+    ANC_SOURCE = 'AncOwn'
+    SOURCE_TIE_ERRORS.append({'kind': 'translator', 'module': 'harness/c09.py:anc_source', 'detail': f'{type(_e).__name__}: {_e}'})
 
 
 # ----------------------------------------------------------------------------------------- generators
@@ -196,6 +201,15 @@ def gen_cases(rng, tier):
             anc = {'none': None, 'zero': [0] * (d - 1), 'prefix': x[:d - 1], 'random': [rng.randint(0, 1) for _ in range(d - 1)],
                    'partial': [rng.randint(0, 1) for _ in range(rng.randint(0, d - 1))]}[mode]
             cases.append(rep(desc, rng.random() < 0.75, x, anc, rng.randint(0, 9)))
+    # (d') the same logical states given through a DIRECTLY built InitialStateContainer: data dictionary in reversed insertion order,
+    # ancilla dictionary sparse (only the ONE entries, absent = ZERO) and in reversed order
+    for d in (2, 3, 4):
+        for _ in range(12 if thorough else 4):
+            x = [rng.randint(0, 1) for _ in range(d)]
+            a = [rng.randint(0, 1) for _ in range(d - 1)]
+            c = rep(chain(d), rng.random() < 0.75, x, a, rng.randint(0, 6))
+            c['direct'] = True
+            cases.append(c)
     # (e) chains d = 5, 6
     for d in (5, 6):
         for cycles in range(10):
@@ -258,7 +272,7 @@ def to_coq(c, o):
     for gates, act in zip(o['desc']['gates'], o['desc']['active']):
         assert [q for e in gates for q in e if q in anc] == act
     return ("(CRep (MkRep " + c_src(c['desc']) + f" {cbool(c['desc']['refocus'])} {c_bools(c['init'])} "
-            + copt(c['anc_init'], c_bools) + f" {cz(c['cycles'])} {ANC_SOURCE} {c_desc(o['desc'])}\n  "
+            + copt(c['anc_init'], c_bools) + f" {cz(c['cycles'])} {ANC_SOURCE} {cbool(bool(c.get('direct')))} {c_desc(o['desc'])}\n  "
             + c_variant(o['plain']) + "\n  " + c_variant(o['unrolled']) + "\n  " + c_variant(o['flat']) + "))")
 
 
